@@ -13,9 +13,12 @@
    max, min) and three maps from names to the request aggregates, the used aggregates and the
    PodCache. No proofs in this file. *)
 From Coq Require Import List ZArith Bool.
-From Verif Require Import Lib.Vec2.
+From Verif Require Import Lib.VecN.
 Import ListNotations.
 Open Scope Z_scope.
+
+Section WithDim.
+Context {D : Dim}.
 
 (* ---------- objects ---------- *)
 
@@ -430,3 +433,5 @@ Fixpoint trace (s : state) (h : list op) : list state :=
   | [] => []
   | o :: t => let s' := step s o in s' :: trace s' t
   end.
+
+End WithDim.
